@@ -1,0 +1,7 @@
+//go:build !verif
+
+package spg
+
+func verifNoteDraw(n uint32) {}
+
+func verifCanonical(chars charList) charList { return chars }
